@@ -53,6 +53,11 @@ def obligations(tier):
                       loops=loops, unwind=4, unwindset={"harness.%d" % i: 52 for i in range(12)}, checks="memsafe-noptr" if any(sh[1] == 2 for sh in shapes) else "memsafe-nopo", timeout=600, object_bits=12,
                       sample="run of items [%s] (N: = named), ref targets %s; payload bytes, bss garbage, 64-bit ref displacements and "
                              "expression values symbolic" % (", ".join(("N:" if named[k] else "") + shapes[k][0] for k in range(n)), targets)))
+    # lref VALUES as the code generator writes them (real gen_setup_lrefs / get_label_disp of mir-gen.c)
+    obs.append(Ob("lref.gen_values", "C14/lref_gen.c", entry="harness", unwind=4, checks="functional", timeout=600, object_bits=12,
+                  native_cc=["-no-pie", "-Wl,--unresolved-symbols=ignore-all"],
+                  sample="gen_setup_lrefs on a function with 1-2 lref items over three labels: label code displacements < 2^31, lref disp in "
+                         "[-2^40, 2^40], second label present or not, -O0 or -O1..3 label representation, any code address: cell == label[-label2]+disp"))
     return obs
 
 
@@ -65,7 +70,8 @@ META = {
                     "symbolic offset and gave no verdict; the solver decides contents, truncation and address arithmetic for all payload values",
                     "allocator: fixed-capacity slot allocator with ledger (requested size checked against the section size)",
                     "MIR_interp replaced by a stub returning an arbitrary value (expr functions are evaluated by the interpreter: C02)",
-                    "lref values are written by the engines (generate_icode / gen_setup_lrefs): only lref placement is checked here",
+                    "lref values: the code generator's gen_setup_lrefs is checked by lref.gen_values; the interpreter's (end of generate_icode) and the lazy-BB "
+                    "generator's loops sit inside functions that are not encoded: there only lref placement is checked",
                     "x86-64 type sizes (long double 16)",
                     "forming `ref_item->addr + disp` for an arbitrary 64-bit disp is address arithmetic, not a dereference: in runs containing a ref item CBMC's pointer checks are off (they flag the address formation itself); runs without ref items keep all dereference checks"],
     "functions_encoded": ["load_bss_data_section", "MIR_link (ref/expr initialisation loops)", "_MIR_type_size", "MIR_item_name"],
